@@ -180,7 +180,7 @@ def show(p):
 
 
 LENGTHS = [0, 2, 8, 5]
-STACKS = ["secure-web-proxy-outer", "regular-inner", "reverse-two-layers", "transparent"]
+STACKS = ["secure-web-proxy-outer", "regular-inner", "reverse-two-layers", "transparent", "secure-web-proxy-inner"]
 
 
 def h_alpn(X, maxlen):
@@ -196,13 +196,25 @@ def h_alpn(X, maxlen):
     saved = (tlsconfig.SSL, tlsconfig.net_tls, tlsconfig.ctx)
     tlsconfig.SSL, tlsconfig.net_tls, tlsconfig.ctx = FakeSSL, FakeNetTls, _Ctx(opts)
     try:
-        ctx = sansio.make_context(opts, mode="regular" if stack in STACKS[:2] else ("reverse:https://example.com" if stack == STACKS[2] else "transparent"))
+        ctx = sansio.make_context(opts, mode="regular" if stack in (STACKS[0], STACKS[1], STACKS[4]) else ("reverse:https://example.com" if stack == STACKS[2] else "transparent"))
         if stack == "secure-web-proxy-outer":
             modes.HttpProxy(ctx)
         elif stack == "regular-inner":
             modes.HttpProxy(ctx)
             http_layer.HttpLayer(ctx, http_layer.HTTPMode.regular)
             ltls.ServerTLSLayer(ctx)
+        elif stack == "secure-web-proxy-inner":
+            # TLS-over-TLS: the outer connection of a secure web proxy is established (it was forced to http/1.1); after
+            # CONNECT the client starts the tunnelled handshake, handled by a second ClientTLSLayer on the same client object
+            modes.HttpProxy(ctx)
+            ltls.ClientTLSLayer(ctx)
+            ctx.client.tls = True
+            ctx.client.timestamp_tls_setup = 1.0
+            ctx.client.alpn = b"http/1.1"
+            ctx.client.alpn_offers = [b"http/1.1"]
+            http_layer.HttpLayer(ctx, http_layer.HTTPMode.regular)
+            ltls.ServerTLSLayer(ctx)
+            X.reach("tls-over-tls")
         elif stack == "reverse-two-layers":
             modes.ReverseProxy(ctx)
         else:
@@ -298,7 +310,7 @@ def obligations(tier):
         Symx("alpn-selection", lambda X: h_alpn(X, n),
              bounds=f"client offer lists of 0..{n} names, each a fully symbolic byte string of length 0/2/8/5 (covers h2, h3, http/1.1, http/1.0, http/0.9, "
                     "empty and all unknown names of these lengths) x upstream {unknown, none negotiated, any name the real tls_start_server offered, a name from outside that filter (clause 1 only)} x http2 x "
-                    "4 layer stacks (secure web proxy outer, regular inner, reverse with 2 layers, transparent)",
-             encoded=ENCODED, must_reach=["selected", "none", "h2-selected", "upstream-known", "upstream-none", "upstream-selected", "upstream-unknown", "upstream-foreign", "secure-web-proxy"],
+                    "5 layer stacks (secure web proxy outer, regular inner, reverse with 2 layers, transparent, tunnelled handshake inside a secure web proxy)",
+             encoded=ENCODED, must_reach=["selected", "none", "h2-selected", "upstream-known", "upstream-none", "upstream-selected", "upstream-unknown", "upstream-foreign", "secure-web-proxy", "tls-over-tls"],
              stubs=STUBS, parallel_depth=4),
     ]
